@@ -11,6 +11,12 @@ REG = {
  "C07": dict(cat="exploration", technique="runtime monitoring: metamorphic oracle (batch lexer) + window-truthfulness equations, exhaustive over small texts and random chained histories",
    text="The real lexer::update is run on every text up to length L over an alphabet covering every look-ahead class, every byte range and every replacement up to length R (complete enumeration inside the stated bounds), and on random 50-step chains over generated programs; each result is compared with lexer::lex of the new text and the change window is checked against the two window equations (ranges and attached errors).",
    note="Trusted: lexer::lex as oracle for lexer::update (tied to the grammar by C06); enumeration bounds L<=3/4, R<=1/2 over 16 symbols.", ref="5/C07"),
+ "C03": dict(cat="exploration", technique="runtime monitoring: ground truth by construction (well-typed generator + single-fault injectors) vs published diagnostics and errors()",
+   text="Generated well-typed programs (any declaration order, nested arrays, ref parameters, nested control flow, random layouts/CRLF/comments) are opened in the built server and analysed through the library; a monitor demands zero diagnostics. 29 fault injectors (all 27 build/semantic message kinds, placed at any statement-list position/depth or declaration index) and 22 missing-token families each demand exactly the rule's message, on the offending construct, identical over LSP and errors(), every range inside the document.",
+   note="Trusted: generator well-typedness and the message/construct templates written from the SPL rules in harness/checks/c03.py; missing-token faults limited to deletions that leave all declarations in place.", ref="5/C03"),
+ "C04": dict(cat="exploration", technique="runtime monitoring: parser output compared with the generating derivation (reference by construction), exhaustive operator shapes",
+   text="parser::parse(lexer::lex(text)) is dumped with absolute token ranges and compared node by node (kind, operator, literal value, identifier, is_ref, doc strings, token range) with the derivation the generator built the text from, under three layouts per program including a comment in every token gap; all 6 092 operator shapes (2-4 operands, all + - * / combinations, every parenthesised sub-range, unary minus, one comparison per slot) and dangling-else chains are enumerated completely; any syntax diagnostic is a violation.",
+   note="Trusted: the generator's productions as the SPL grammar; the node-range rule stated in the property (node = its tokens + directly preceding comments; comments before a declaration are doc).", ref="5/C04"),
 }
 NOT_YET = "check not yet built in this session (work in progress; see DESIGN.md section 5 for the planned monitor)"
 
